@@ -48,6 +48,12 @@ def Dim.exact (n : Nat) : Option Dim := mkDim (some n) (some n) none (some n)
 /-- `Dimension.is_zero()` -/
 def Dim.isZero (d : Dim) : Bool := d.pref == 0 || d.max == 0
 
+/-- `if dimension.max_specified: preferred = min(preferred, dimension.max)`;
+    `if dimension.min_specified: preferred = max(preferred, dimension.min)` -/
+def clampSpec (p : Nat) (d : Dim) (mn mx : Option Nat) : Nat :=
+  let p1 := if mx.isSome then Nat.min p d.max else p
+  if mn.isSome then Nat.max p1 d.min else p1
+
 /-- What a `Window(height=Dimension(mn, mx, w, pr))` with a `DummyControl` reports as
     `preferred_height` (`Window._merge_dimensions`, content preferred = None,
     dont_extend = False): the given dimension is rebuilt from its *specified* fields. -/
@@ -56,14 +62,8 @@ def windowDim (mn mx w pr : Option Nat) : Option Dim :=
   | none => none
   | some d =>
     -- preferred: only when explicitly given, then clamped again into the specified bounds
-    let p : Option Nat := match pr with
-      | none => none
-      | some _ =>
-        let p0 := d.pref
-        let p1 := match mx with | some _ => Nat.min p0 d.max | none => p0
-        let p2 := match mn with | some _ => Nat.max p1 d.min | none => p1
-        some p2
-    mkDim (mn.map fun _ => d.min) (mx.map fun _ => d.max) (some d.weight) p
+    mkDim (mn.map fun _ => d.min) (mx.map fun _ => d.max) (some d.weight)
+      (pr.map fun _ => clampSpec d.pref d mn mx)
 
 def sumOf (f : Dim → Nat) (ds : List Dim) : Nat := (ds.map f).sum
 
